@@ -37,4 +37,4 @@ def check(case):
 
 SUBCHECKS = [SubCheck("world", ballworld.case_strategy, check, quick=1600, thorough=30000, procs_quick=8),
              SubCheck("calm", ballworld.calm_strategy, check, quick=1600, thorough=30000, procs_quick=8),
-             SubCheck("game", ballworld.game_strategy, check, quick=1600, thorough=30000, procs_quick=8)]
+             SubCheck("game", ballworld.game_strategy, check, quick=3000, thorough=40000, procs_quick=8)]
